@@ -34,6 +34,7 @@ PATH_MUTATORS = {"create_dir", "create_dir_all", "create_file", "append_file", "
 
 
 def marker_rules(facts, rep, w, prefix=None, only=None):
+    from .c05 import fmt_pieces
     ov = Overlay(facts, w)
     n = 0
     if prefix:
@@ -79,18 +80,19 @@ def marker_rules(facts, rep, w, prefix=None, only=None):
             rep.fail("R10.3", w.overlay, "%s implemented" % op, "missing")
             continue
         cb0 = ov.inter.code_body(b)
-        unmarks = [(cb, s, tr, recv) for cb, s, tr, recv in ov.path_sites(b, ("remove_file", "remove_dir", "remove_dir_all"))
+        # (sites in private helpers of the overlay count as the op's own, read in the op's name space)
+        unmarks = [(cb, s, tr, recv, gs_) for cb, s, tr, recv, gs_ in ov.deep_path_sites(b, ("remove_file", "remove_dir", "remove_dir_all"))
                    if ov.is_marker(recv)]
         n += 1
         rep.ob("R10.3", b.id, "%s: marker removal present" % op, len(unmarks) >= 1, "%d site(s)" % len(unmarks), b.span)
-        for cb, s, tr, recv in unmarks:
+        for cb, s, tr, recv, gs_ in unmarks:
             exact = sname(s.path) == "remove_file" and ov.mentions_path_arg(recv) and \
                 not any(x[0] == "call" and sname(x[1]) == "parent" for x in walk(norm(recv)))
             n += 1
             rep.ob("R10.3", b.id, "%s: removes exactly the marker of the re-created path" % op, exact, "" if exact else
                    "re-creation removes %s of %s instead of the single marker file of the path: markers of children "
                    "deleted earlier disappear and the children reappear" % (sname(s.path), fmt(norm(recv))[:60]), s.line)
-            gs = ov.guards(cb, s.bb)
+            gs = gs_
             after_create = any(g[0] == "variant" and g[2] == "ok" and peel(g[1])[0] == "call" and sname(peel(g[1])[1]) == op and
                                peel(g[1])[2] and ov.is_upper_plain(peel(g[1])[2][0]) for g in gs)
             n += 1
@@ -201,18 +203,55 @@ def marker_rules(facts, rep, w, prefix=None, only=None):
                 t = tr.operand(a)
                 if not ov.is_marker(t):
                     continue
-                opn = root.name
-                ok = False
-                if opn in ("remove_file", "remove_dir") and nm in ("create_file", "create_dir_all") and ai == 0:
-                    ok = True
-                if opn in ("create_file", "create_dir") and nm == "remove_file" and ai == 0:
-                    ok = True
-                allowed += ok
-                n += 1
-                rep.ob("R10.5", root.id, "%s on a marker path in %s" % (nm, opn), ok,
-                       "part of the marker protocol" if ok else
-                       "%s touches the marker namespace (%s) outside the protocol: deletions recorded there can be lost "
-                       "or markers appear for paths that were not removed" % (nm, fmt(norm(t))[:60]), s.line)
+                # a private helper is judged as the operations that reach it (each of them has to be allowed the call)
+                roots = ov.entries_of(root) if ov.is_private_helper(root) else [root]
+                for root_ in (roots or [root]):
+                    opn = root_.name
+                    ok = False
+                    if opn in ("remove_file", "remove_dir") and nm in ("create_file", "create_dir_all") and ai == 0:
+                        ok = True
+                    if opn in ("create_file", "create_dir") and nm == "remove_file" and ai == 0:
+                        ok = True
+                    allowed += ok
+                    if ok:
+                        # ... and the marker lies strictly inside the reserved directory for every argument, the empty (root) path
+                        # included: `<reserved>/...`, never `<reserved><path>...`, which for the root is a name in the write layer's
+                        # root directory that an ordinary entry can have
+                        own_ = lambda b_: bool(b_.impl) and b_.impl["self_ty"] == w.overlay
+                        outside = []
+                        for x in walk(norm(ov.inter.inline_ret(t, depth=3, pred=own_))):
+                            if x[0] == "call" and isinstance(x[1], str) and sname(x[1]) == "join" and len(x[2]) == 2:
+                                a1 = x[2][1]
+                                lead = None
+                                if a1[0] == "str":
+                                    lead = a1[1]
+                                else:
+                                    pcs = fmt_pieces(a1)
+                                    if pcs and pcs[0][0] == "lit":
+                                        lead = pcs[0][1]
+                                if lead is not None and "/" not in lead.strip("/") and not lead.endswith("/"):
+                                    # unless the builder treats the empty path separately (then the path that follows starts with "/")
+                                    jb = facts.body(x[3][0]) if x[3] else None
+                                    special = False
+                                    if jb is not None:
+                                        trj = get_tracer(facts, jb)
+                                        for sj in ov.inter.sites(jb):
+                                            if sj.short in ("str::is_empty", "String::is_empty", "PartialEq::eq", "PartialEq::ne") and sj.args and \
+                                                    any(y[0] == "arg" for y in walk(norm(trj.operand(sj.args[0])))):
+                                                special = True
+                                    if not special:
+                                        outside.append(lead)
+                        n += 1
+                        rep.ob("R10.5", root_.id, "%s in %s: the marker lies inside the reserved directory" % (nm, opn), not outside,
+                               "" if not outside else
+                               "the marker name starts with `%s` followed directly by the path: for the root (empty path) the marker is a "
+                               "top-level name of the write layer outside the bookkeeping directory, so an ordinary entry of that name "
+                               "makes the root look removed" % outside[0], s.line)
+                    n += 1
+                    rep.ob("R10.5", root_.id, "%s on a marker path in %s" % (nm, opn), ok,
+                           "part of the marker protocol" if ok else
+                           "%s touches the marker namespace (%s) outside the protocol: deletions recorded there can be lost "
+                           "or markers appear for paths that were not removed" % (nm, fmt(norm(t))[:60]), s.line)
     rep.floor("protocol call sites on marker paths", allowed, 6)
     # ---- R10.6 bookkeeping hidden
     reserved = ov.reserved_literal()
@@ -355,4 +394,12 @@ def run(facts, rep, tier, ctx):
     for w_ in (ws, wa):
         if w_.present():
             _c04.overlay_read_delegation(facts, rep if not w_.asyncw else _Prefixed(rep, "A"), w_, "R10.11")
+    # R10.14 the merged listing (which remove_dir_all walks and remove_dir's emptiness test reads) decides "is this layer's entry a
+    # directory" with the path type's is_dir: it has to answer through exists() and the path's own metadata type, and a failed
+    # metadata lookup is an error of the listing, never `false` — or a lower layer drops out of the listing silently and a
+    # "successful" remove_dir_all leaves its entries unmarked, to come back (C05 R05.2)
+    from . import c05 as _c05
+    for w_ in (ws, wa):
+        if w_.present():
+            _c05.is_kind_rules(facts, _c05._P5(rep if not w_.asyncw else _Prefixed(rep, "A"), "R10.14"), w_, D10)
     rep.assume("the reserved names ('.whiteout', '*_wo') are not used by callers (excluded by the property)")
